@@ -204,8 +204,10 @@ def m_any(I, path, args, kwargs):
         if z3.is_false(acc):
             return False
         return SBool(acc)
-    j = path.fresh("j", IntS)
-    return SBool(z3.Exists([j], z3.And(j >= 0, j < s.length, to_bool_term(s.at(SInt(j))))))
+    # over a source of symbolic length: a Bool with a Skolem witness one way and an instantiable schema the other way
+    # (native quantifiers never reach the solver) - the same encoding as `next(generator, default)` and `x in seq`
+    from .ground import exists_witness
+    return SBool(exists_witness(path, s.length, lambda j: to_bool_term(s.at(SInt(j))), "any"))
 
 
 def m_all(I, path, args, kwargs):
@@ -220,8 +222,8 @@ def m_all(I, path, args, kwargs):
         if z3.is_false(acc):
             return False
         return SBool(acc)
-    j = path.fresh("j", IntS)
-    return SBool(z3.ForAll([j], z3.Implies(z3.And(j >= 0, j < s.length), to_bool_term(s.at(SInt(j))))))
+    from .ground import exists_witness
+    return SBool(z3.Not(exists_witness(path, s.length, lambda j: z3.Not(to_bool_term(s.at(SInt(j)))), "notall")))
 
 
 def m_getattr(I, path, args, kwargs):
